@@ -36,7 +36,8 @@ THEOREMS['C04'] = ['FB.C04_exists_iff', 'FB.C04_not_both', 'FB.C04_listDir_iff',
                    'FB.BuildDirs.started_inv', 'FB.BuildDirs.error_inv', 'FB.BuildDirs.isRemoved_inv',
                    'FB.BuildDirs.C04_isRemoved_iff_gone', 'FB.BuildDirs.isRemoved_spec', 'FB.BuildDirs.checkMaybeRemoved_spec',
                    'FB.BuildDirs.checkLoop_spec', 'FB.BuildDirs.handleDirExists_qinv', 'FB.BuildDirs.qreach_qinv',
-                   'FB.Overlay.not_both', 'FB.Overlay.exists_eq', 'FB.Overlay.filterExisting_sub']
+                   'FB.Overlay.not_both', 'FB.Overlay.exists_eq', 'FB.Overlay.filterExisting_sub',
+                   'FB.Overlay.C04_start_exists', 'FB.Overlay.start_isFile', 'FB.Overlay.start_isDir']
 THEOREMS['C02'] = ['FB.C02_rolledBack_frame', 'FB.C02_rolledBack_files', 'FB.C02_spec_build_raises', 'FB.Backups.restoreAll_spec',
                    'FB.Backups.restoreOne_self', 'FB.Backups.restoreOne_other', 'FB.Backups.backUp_file']
 THEOREMS['C14'] = ['FB.C14_fault_surfaces', 'FB.C02_spec_build_raises', 'FB.C02_rolledBack_files']
@@ -550,7 +551,7 @@ def bulk_rollback_probe(tier, rep):
 
 def check_C10(tier):
     # "... also when creating those directories, or moving the old file aside, itself fails": a batch of injected faults
-    return run_hist_prop('C10', tier, 10, 500, 30000, families=[gen.scen_nested_failure, gen.scen_swap, gen.scen_stale_dir, gen.scen_longname],
+    return run_hist_prop('C10', tier, 10, 500, 30000, families=[gen.scen_nested_failure, gen.scen_swap, gen.scen_stale_dir, gen.scen_longname, gen.scen_file_becomes_parent],
                          per_family=(80, 2000), p_fail=0.1, faults=((4, 100), (40, 2000), 110),
                          _after=lambda rep: [rep.violation('symlink', {'property': 'C10', 'kind': 'failing-input', 'what': q},
                                                            note=json.dumps(q, default=str)[:250]) for q in symlink_probe(tier, rep)[:2]])
